@@ -40,7 +40,8 @@ type op struct {
 	Pfx   string `json:"prefix,omitempty"`
 	Delim string `json:"delim,omitempty"`
 	Range string `json:"range,omitempty"`
-	Who   int    `json:"who,omitempty"` // 0 root, 1 alice (user), 2 carol (userplus)
+	Who   int    `json:"who,omitempty"`  // 0 root, 1 alice (user), 2 carol (userplus)
+	Mark  int    `json:"mark,omitempty"` // mpulist: 0 no markers, 1 key-marker = key Src, 2 key-marker and upload-id-marker (the id of the upload on key Src, if any), 3 upload-id-marker alone
 }
 
 type caseA struct {
@@ -386,6 +387,13 @@ func step(s *side, bkt string, o op) ([]*s3c.Resp, error) {
 		return one(cl.Call("HEAD", path, nil, []s3c.KV{{K: "x-amz-checksum-mode", V: "ENABLED"}}, nil))
 	case "headbucket":
 		return one(cl.Call("HEAD", "/"+bkt, nil, nil, nil))
+	case "mkbucket":
+		// the bucket exists: creating it again is refused and leaves it (owner, ACL) as it is
+		var h []s3c.KV
+		if o.Meta%3 == 1 {
+			h = []s3c.KV{{K: "x-amz-acl", V: "public-read"}, {K: "x-amz-object-ownership", V: "BucketOwnerPreferred"}}
+		}
+		return one(cl.Call("PUT", "/"+bkt, nil, h, nil))
 	case "range":
 		return one(cl.Call("GET", path, nil, []s3c.KV{{K: "Range", V: o.Range}}, nil))
 	case "getif":
@@ -632,6 +640,18 @@ func step(s *side, bkt string, o op) ([]*s3c.Resp, error) {
 		if o.Delim != "" {
 			q = append(q, s3c.KV{K: "delimiter", V: o.Delim})
 		}
+		if o.Mark > 0 {
+			id := "00000000-0000-4000-8000-000000000000"
+			if u := s.uploads[o.Src%len(keyNames)]; u != nil {
+				id = u.id
+			}
+			if o.Mark != 3 {
+				q = append(q, s3c.KV{K: "key-marker", V: keyNames[o.Src%len(keyNames)]})
+			}
+			if o.Mark != 1 {
+				q = append(q, s3c.KV{K: "upload-id-marker", V: id})
+			}
+		}
 		return one(cl.Call("GET", "/"+bkt, q, nil, nil))
 	}
 	return nil, nil
@@ -809,7 +829,7 @@ var strict bool // replay of an open finding: no narrowing
 
 var singleKinds = []string{"put", "put", "put", "put", "get", "get", "getchk", "head", "headchk", "headbucket", "range", "getif", "attrs", "copy", "copy", "delete", "delobjs",
 	"tagput", "tagget", "tagdel", "list", "list", "list1", "listbuckets", "policyput", "policyget", "policydel", "ownput", "ownget", "aclput", "aclget",
-	"verget", "verput", "listversions", "missingget", "missingbucket", "mpulist", "mpulistparts", "mpucomplete", "mpuabort", "mpupart", "btagput", "btagget", "btagdel", "mpuseq", "mpuseq", "mpuseq", "restart"}
+	"verget", "verput", "listversions", "missingget", "missingbucket", "mkbucket", "mpulist", "mpulistparts", "mpucomplete", "mpuabort", "mpupart", "btagput", "btagget", "btagdel", "mpuseq", "mpuseq", "mpuseq", "restart"}
 
 func opsGen(thorough bool) *rapid.Generator[[]op] {
 	return rapid.Custom(func(t *rapid.T) []op {
@@ -835,6 +855,10 @@ func opsGen(thorough bool) *rapid.Generator[[]op] {
 				o.Max = rapid.SampledFrom([]int{0, 0, 1, 1, 2, 1000, -1}).Draw(t, "max")
 				o.Pfx = rapid.SampledFrom([]string{"", "", "dir/", "d", "zz", "ü"}).Draw(t, "prefix")
 				o.Delim = rapid.SampledFrom([]string{"", "/", "/"}).Draw(t, "delim")
+				if o.Kind == "mpulist" {
+					o.Mark = rapid.SampledFrom([]int{0, 0, 1, 1, 2, 3}).Draw(t, "mark")
+					o.Src = rapid.IntRange(0, len(keyNames)-1).Draw(t, "mark_key")
+				}
 			case "mpuseq":
 				// a whole upload on one key: create, parts (uploaded or copied), optional listings, an ending
 				who := o.Who
